@@ -124,6 +124,15 @@ def unary_exprs(t):
         out.append(('idx', ('slice', a, w - 1, 1), 0))
         out.append(('view', 'unsigned', ('slice', a, w - 1, 1)))
         out.append(('view', 'signed', ('slice', a, w - 1, 0)))
+    if w >= 4:
+        # three and four levels of constant slicing with non-zero lower bounds, msb/lsb chains
+        l2 = ('slice', ('slice', a, w - 1, 1), w - 2, 1)
+        out.append(('slice', l2, w - 3, 1))
+        out.append(('idx', l2, w - 3))
+        out.append(('idx', ('slice', l2, w - 3, 1), 0))
+        out.append(('lsb', ('msb', ('msb', a, w - 1), w - 2), 1))
+        out.append(('msb', ('lsb', ('msb', a, w - 1), w - 2), 1))
+        out.append(('view', 'unsigned', ('slice', ('view', 'unsigned', ('slice', ('slice', a, w - 1, 1), w - 2, 1)), 1, 0)))
     return out
 
 
